@@ -15,6 +15,15 @@
    file under /repo and the stdlib spec) and (ii) a grammar-based generator of programs; failing
    programs are shrunk by subtree / token deletion.  When Fandango *rejects* a text that is fine; when it
    accepts, the AST must match.
+   EVERY difference of a case is reported (outermost node of each), under the signature
+   `C08/<site>:<class>` with site = code | constraint | generator | repetition.  A class is either the shape of
+   a recognised defect (`named_pattern`, `constraint_diffs`, `underscore_split_reading`) or generic
+   (`want:<node type>`, `<Node>.<field>`, `…:len±`).  The top level of a constraint is the spec language's own
+   grammar (formula_disjunction / _conjunction / _comparison / expr): `and` / `or` are compared through the
+   conjunction / disjunction objects, and a regrouping there (same operator sequence, same operands, other
+   grouping) is ONE difference, classified by the precedence rule that caused it; the operands are compared
+   pairwise.  Findings proposed by this builder (proposed_findings/C08.json, status open) are treated like
+   known_findings.json entries until the lead decides.
 """
 from __future__ import annotations
 
